@@ -18,6 +18,8 @@ from an arbitrary prng stream `s`.
 * `hrr_others_identical`, `hrr_key_share_single`, `hrr_cookie_echoed` — the consequences the
   monitor checks on the wire.
 * `hrr_invalid_abort`, `hrr_bad_fields_abort` — the aborts and their alerts.
+* `hrr_key_is_fresh` — the key exchange after the retry uses the key behind the fresh share for every
+  prior key set (history independence).
 * `hrr_no_panic`, `cookie_index_range` — the insertion index for every list length.
 * `cookie_before_last` — the inserted cookie is never last; a trailing PSK / padding stays last.
 -/
@@ -471,6 +473,27 @@ theorem suite_change_aborts (f : Fixed) (p : Nat) (h : SH)
   unfold checkSH
   rw [if_neg (by omega), if_neg (by omega), if_neg (by omega), if_neg (by simp [h3]), if_neg (by simp [h4]),
     if_neg (by omega), if_pos ⟨rfl, hs⟩]
+
+/-! ## the key behind the fresh share -/
+
+/-- **the key exchange uses the fresh key, whatever the UConn went through before.** For *every*
+key set the handshake state held when the HelloRetryRequest arrived — in particular one whose
+per-group map still has a private key for the selected group from an earlier `ApplyPreset`, or from a
+share that was built and then removed — `establishHandshakeKeys` (`ecdheKeyFor(selected group)`) finds
+the key behind the share the second ClientHello carries (`hrr_key_share_single`), and no key of the old
+set is reachable any more. So the outcome of the retry is a function of the current extension list, the
+HelloRetryRequest and the fresh key only — not of the history of the connection object. -/
+theorem hrr_key_is_fresh (old : Option KeySet) (h : SH) (fresh : Bytes) (hg : h.group ≠ 0) :
+    ecdheKeyFor (keysAfterHRR old h fresh) h.group = some fresh ∧
+    ∀ g, ecdheKeyFor (keysAfterHRR old h fresh) g = some fresh := by
+  unfold keysAfterHRR
+  rw [if_neg hg]
+  exact ⟨rfl, fun _ => rfl⟩
+
+/-- what the statement rules out: updating the old set in place (`curveID`, `ecdhe` overwritten, map
+kept) hands the key exchange the stale key of an earlier spec. -/
+example : ecdheKeyFor (some { (⟨29, some [1], [(29, [1]), (23, [2])]⟩ : KeySet) with curveID := 23, ecdhe := some [9] }) 23 = some [2] := by
+  decide
 
 /-! ## no panic, cookie never last -/
 
